@@ -63,6 +63,17 @@ func sortByOperator(d *dataTreeNavigator, context Context, expressionNode *Expre
 	return context.ChildContext(results), nil
 }
 
+// parseSortableNumber reads a number for ordering purposes: integers in any
+// of the supported notations (decimal, 0x, 0o), anything else as a float.
+func parseSortableNumber(tag string, value string) (float64, error) {
+	if tag == "!!int" {
+		if _, num, err := parseInt64(value); err == nil {
+			return float64(num), nil
+		}
+	}
+	return strconv.ParseFloat(value, 64)
+}
+
 type sortableNode struct {
 	Node           *CandidateNode
 	CompareContext Context
@@ -156,29 +167,28 @@ func (a sortableNodeArray) compare(lhs *CandidateNode, rhs *CandidateNode, dateT
 		}
 
 		return 1
-	} else if lhsTag == "!!int" && rhsTag == "!!int" {
-		_, lhsNum, err := parseInt64(lhs.Value)
-		if err != nil {
-			panic(err)
-		}
-		_, rhsNum, err := parseInt64(rhs.Value)
-		if err != nil {
-			panic(err)
-		}
-		if lhsNum < rhsNum {
-			return -1
-		} else if lhsNum > rhsNum {
-			return 1
-		}
-		return 0
 	} else if (lhsTag == "!!int" || lhsTag == "!!float") && (rhsTag == "!!int" || rhsTag == "!!float") {
-		lhsNum, err := strconv.ParseFloat(lhs.Value, 64)
-		if err != nil {
-			panic(err)
+		if lhsTag == "!!int" && rhsTag == "!!int" {
+			_, lhsInt, lhsErr := parseInt64(lhs.Value)
+			_, rhsInt, rhsErr := parseInt64(rhs.Value)
+			if lhsErr == nil && rhsErr == nil {
+				if lhsInt < rhsInt {
+					return -1
+				} else if lhsInt > rhsInt {
+					return 1
+				}
+				return 0
+			}
 		}
-		rhsNum, err := strconv.ParseFloat(rhs.Value, 64)
+		lhsNum, err := parseSortableNumber(lhsTag, lhs.Value)
 		if err != nil {
-			panic(err)
+			log.Warningf("Could not parse number %v for sort, sorting by string instead: %v", lhs.Value, err)
+			return strings.Compare(lhs.Value, rhs.Value)
+		}
+		rhsNum, err := parseSortableNumber(rhsTag, rhs.Value)
+		if err != nil {
+			log.Warningf("Could not parse number %v for sort, sorting by string instead: %v", rhs.Value, err)
+			return strings.Compare(lhs.Value, rhs.Value)
 		}
 		if lhsNum == rhsNum {
 			return 0
